@@ -26,6 +26,7 @@ ROPEFOLDER = ".ropeproject"
 ALPHABETS = {
     "ascii": list("abcXYZ019 _=+-()[]'\"#:.,\t") + ["\x0c", "\x0b", "\x1c", "\x1d", "\x1e"],
     "latin": list("abc =é ü ß ÿ ñ") + ["\x85", "\xa0", "\x0c"],
+    "latin9": list("abc =é € Š œ Ž"),  # characters ISO 8859-15 has and ISO 8859-1 has not
     "cyr": list("ab= Жукяё"),
     "jp": list("ab= 日本語ｱあ"),
     "jp2": list("ab= 日本語あ"),
@@ -38,7 +39,7 @@ ALPHABETS = {
 CODECS = [
     (None, "utf8", "utf-8"), (None, "utf8", "utf-8"), (None, "ascii", "utf-8"),
     ("utf-8", "utf8", "utf-8"), ("utf8", "utf8", "utf-8"), ("UTF-8", "utf8", "utf-8"),
-    ("latin-1", "latin", "latin-1"), ("iso-8859-1", "latin", "iso-8859-1"), ("iso-8859-15", "latin", "iso-8859-15"),
+    ("latin-1", "latin", "latin-1"), ("iso-8859-1", "latin", "iso-8859-1"), ("iso-8859-15", "latin9", "iso-8859-15"),
     ("cp1252", "latin", "cp1252"), ("cp1251", "cyr", "cp1251"), ("koi8-r", "cyr", "koi8-r"),
     ("shift_jis", "jp", "shift_jis"), ("euc_jp", "jp", "euc_jp"), ("cp932", "jp", "cp932"),
     ("ascii", "ascii", "ascii"), ("cp437", "ascii", "cp437"),
@@ -318,7 +319,7 @@ class ByteStoreEngine(Engine):
                 "edit": rng.choice([3, 6]), "file_write": rng.choice([1, 3]), "undo": rng.choice([1, 3]),
                 "redo": rng.choice([1, 2]), "reopen": rng.choice([0, 1, 2]), "flip": rng.choice([0, 1, 2]),
                 "fail": rng.choice([0, 1, 2]), "refactor": rng.choice([0, 2]), "create": rng.choice([0, 1]),
-                "unencodable": rng.choice([0, 1]), "bytes_write": rng.choice([0, 0, 1]), "recode": rng.choice([0, 0, 1]), "unwind": rng.choice([0, 1, 1]),
+                "unencodable": rng.choice([0, 1]), "bytes_write": rng.choice([0, 0, 1]), "recode": rng.choice([0, 0, 1]), "unwind": rng.choice([0, 1, 1]), "empty_refill": rng.choice([0, 1]),
             },
         }
         init = []
@@ -343,13 +344,16 @@ class ByteStoreEngine(Engine):
             if rng.random() < 0.5 and not swarm.get("non_ascii_signatures"):
                 # the whole program is kept in a legacy encoding: every module declares it and
                 # carries text that only round-trips under that declaration
-                pc = rng.choice([c for c in CODECS if c[0] and c[1] in ("latin", "cyr", "jp")])
+                pc = rng.choice([c for c in CODECS if c[0] and c[1] in ("latin", "latin9", "cyr", "jp")])
                 swarm["program_codec"] = pc[0]
                 for e in init:
                     if e.get("dir") or (not e["text"] and rng.random() < 0.5):
                         continue
                     body = "".join(l for l in e["text"].splitlines(True) if not l.startswith("note = "))
-                    head = "# -*- coding: %s -*-\n# %s\n" % (pc[0], _word(rng, pc[1]))
+                    # (the first definition may follow the header directly, with or without a shebang)
+                    head = rng.choice(["# -*- coding: %s -*-\n# %s\n", "#!/usr/bin/env python\n# -*- coding: %s -*-\n# %s\n",
+                                       "#!/usr/bin/env python\n# -*- coding: %s -*-\n", "# -*- coding: %s -*-\n"])
+                    head = head % ((pc[0], _word(rng, pc[1])) if head.count("%s") == 2 else (pc[0],))
                     if rng.random() < 0.5:
                         body += "note = '%s'\n" % _word(rng, pc[1])
                     text = head + body
@@ -363,7 +367,7 @@ class ByteStoreEngine(Engine):
             if rng.random() < 0.6:
                 # a module that so far is only its header (shebang, coding line, copyright): the
                 # "new module from a template" shape; things are moved into it by refactorings
-                codec = rng.choice([c for c in CODECS if c[0] and c[1] in ("latin", "cyr", "jp")])
+                codec = rng.choice([c for c in CODECS if c[0] and c[1] in ("latin", "latin9", "cyr", "jp")])
                 word = "".join(rng.choice(ALPHABETS[codec[1]]) for _ in range(6)).replace("\n", "")
                 head = rng.choice(["#!/usr/bin/env python\n# -*- coding: %s -*-\n# (c) %s\n", "# -*- coding: %s -*-\n# %s\n#\n",
                                    "# -*- coding: %s -*-\n# %s\nHDR = 1\n", "# -*- coding: %s -*-\n"])
@@ -437,6 +441,17 @@ class ByteStoreEngine(Engine):
             elif k == "unencodable":
                 # an edit that brings in a character the declared codec cannot hold
                 steps.append({"op": "unencodable", "path": p, "held": held, "extra": rng.choice(["日", "Ж", "€", "😀", "é"])})
+            elif k == "empty_refill" and not swarm["program"]:
+                # a file is emptied and refilled through one File object (which remembers the line ends),
+                # the refill is undone, the project reopened, the refill redone
+                refill = gen_store_text(rng, tuple(codecs[p]), allow_empty=False, nls=(nls.get(p, "lf"),))
+                steps.append({"op": "edit", "path": p, "text": "", "held": True, "id": nid})
+                steps.append({"op": "edit", "path": p, "text": refill, "held": True, "id": nid + 5000})
+                steps.append({"op": "undo"})
+                if rng.random() < 0.8:
+                    steps.append({"op": "reopen"})
+                steps.append({"op": "redo"})
+                texts[p] = refill
             elif k == "unwind":
                 n = rng.randint(1, 4)
                 mid = [{"op": "reopen"}] if rng.random() < 0.4 else []  # redo from a reloaded redo list
@@ -809,7 +824,9 @@ class ByteStoreEngine(Engine):
                                 if isinstance(b, bytes):
                                     enc = _effective_encoding(b)
                                     try:
-                                        got |= {c for c in b.decode(enc) if ord(c) > 127}
+                                        # (characters that only make a line blank, such as U+2029 or a no-break
+                                        # space, share the fate of blank lines, which refactorings re-space)
+                                        got |= {c for c in b.decode(enc) if ord(c) > 127 and not c.isspace()}
                                     except (UnicodeError, LookupError):
                                         return None
                             return got
@@ -856,7 +873,14 @@ class ByteStoreEngine(Engine):
                 try:
                     want = model.current().files
                 except ModelError as e:
-                    raise kernel.HarnessError("byte model replay failed: %s" % e)
+                    # every text the generator hands over was checked to be encodable in its file's declared
+                    # encoding; what fails here is a text rope produced (a refactoring's result, or what
+                    # File.read() returned and is written back): it cannot be held by that encoding
+                    if not bad:
+                        bad = ("text_not_encodable_in_declared_encoding", {"error": str(e)[:200]})
+                    if model._undo:
+                        model._undo.pop()
+                    want = snap
                 out.log.add(ev="step", i=i, op=op, path=path, tree=kernel.tree_hash(snap), bad=bad[0] if bad else None)
                 out.state(kernel.tree_hash(snap))
                 if bad:
